@@ -21,8 +21,9 @@ RecOK(r, hasPrev, prev) ==
          /\ r.scalar = r.array                                          \* scalar and array conversions agree
          /\ (hasPrev /\ prev.kind = "convert" /\ prev.S = r.S) => Le(prev.scalar, r.scalar)      \* monotone
     [] r.kind = "raw" ->
-         \* raw timestamps survive read / write / defragment bit-exactly
-         r.sec = r.sec_back /\ r.frac = r.frac_back
+         \* raw timestamps survive read / write / defragment bit-exactly; a single value (channel[i], array[i], a
+         \* property) is handed out as the library's scalar timestamp (r.scalar = FALSE: a bare record came back)
+         r.sec = r.sec_back /\ r.frac = r.frac_back /\ r.scalar
     [] r.kind = "track" ->
          \* time_track: n points, point i = (a + i*b)/den seconds after the start; values are exact small integers
          /\ Len(r.rel) = r.n /\ Len(r.abs) = r.n
